@@ -402,7 +402,7 @@ func runC14(w *World, c *Check) {
 	if fn := w.Func("keytab.(*Keytab).Unmarshal"); fn != nil {
 		fa := NewFuncAn(w, fn)
 		neg := fa.MatchGuard(GuardPat{Kind: "gt", X: "0", Y: `\$L\d+|keytab\.readInt32\(b, [^\[]*\)#0`, PassWhen: true}) // edge on which l < 0
-		var princ []ssa.CallInstruction // the entry parser, or the call of the helper that holds it
+		var princ []ssa.CallInstruction                                                                                  // the entry parser, or the call of the helper that holds it
 		for _, dc := range fa.CallsDeep(`keytab\.parsePrincipal`) {
 			princ = append(princ, dc.site)
 		}
